@@ -195,7 +195,10 @@ def run_case(ns, mon, c):
                 red = cols.max(2) if mx else cols.mean(2)
                 return red.reshape((N, C, lH, lW))
             f = sg.max_pool2d if mx else sg.avg_pool2d
-            res, nel = both([x], lambda x_: f(x_, tuple(k), tuple(s), tuple(p), tuple(d)), compp)
+
+            def short(v):          # the int shorthand for a square argument (every second case)
+                return int(v[0]) if (v[0] == v[1] and c["seed"] % 2 == 0) else tuple(v)
+            res, nel = both([x], lambda x_: f(x_, short(k), short(s), short(p), short(d)), compp)
         elif ident in ("maxpool1d", "avgpool1d"):
             N, C, L, k, s, p, d = c["N"], c["C"], c["L"], c["k"], c["s"], c["p"], c["d"]
             lW = R.out_len(L, k, s, p, d)
@@ -286,6 +289,18 @@ def run_case(ns, mon, c):
                     p_.data = rng.standard_normal(p_.shape)
             x = rng.standard_normal((3, w_))
             seq = nn.Sequential(*layers)
+            if len(layers) >= 2 and c["seed"] % 3 == 0:
+                # an entry of the container is replaced after construction: the composition is that of the entries in their positions
+                keys_ = [k_ for k_, v_ in seq.__dict__.get("_submodules", {}).items()]
+                if len(keys_) == len(layers):
+                    i_ = int(rng.integers(len(layers) - 1))
+                    new_ = [nn.Tanh(), nn.LeakyReLU(0.3), nn.Sigmoid()][int(rng.integers(3))]
+                    if c["seed"] % 2:
+                        setattr(seq, keys_[i_], new_)
+                    else:
+                        seq.register_module(keys_[i_], new_)
+                    layers[i_] = new_
+                    args = dict(args, replaced_entry=i_)
 
             def compose(a):
                 for l in layers:
